@@ -1,7 +1,7 @@
 """C08 — accumulated patches are delivered completely, atomically and exactly once.
 
 Model: lean/Kopf/Model/C08_Patching.lean (`patchObj`, the stateful server, `cycle` = carry-forward of
-`memory.remaining_patch`). Theorems: lean/Kopf/Props/C08.lean.
+`memory.remaining_patch`; `settled`/`cycleForgetting` = the variant of commit 608a57d, kept for regression theorems). Theorems: lean/Kopf/Props/C08.lean.
 
 Ties
  (D) carrier "event" (most cases): the REAL `processing.process_resource_event` per cycle — real memories,
@@ -20,7 +20,8 @@ Ties
      the object is deleted and recreated under the same name, foreign writes slipped between the
      merge-patch and the JSON-patch of a cycle, injected 422s; every `patch_obj` call observed there is
      replayed through the model from the server state it started on, and every
-     `process_resource_event` must start its patch from `memory.remaining_patch`.
+     `process_resource_event` must start its patch from `memory.remaining_patch`, or what remained must change nothing in
+     the object as the cycle sees it AND in the freshest state the cycle gets to see (the variant of 608a57d failed the latter).
 The Python oracle is written from the property text over the request log, the per-request server
 snapshots and the returned values; it never consults the model.
 """
@@ -60,7 +61,11 @@ LEVEL_TEXT = (
     "status_removal_delivered; fns_atomic, conflict_keeps_all_fns, remaining_only_after_refusal; carry-forward of "
     "process_resource_event after commit 1c8f3dd: carried_until_accepted (a handler-supplied fn stays in the memory and in "
     "every patch through ANY run of refused/failed cycles), accepted_call_empties_memory, carry_forward (any dict content of "
-    "the next cycle: exactly one application of carried + newly decided fns to the then-fresh finalizer list), "
+    "the next cycle: exactly one application of carried + newly decided fns to the then-fresh finalizer list); regression theorems about "
+    "the variant of commit 608a57d (carried fns that yield no operation on the next cycle's body forgotten at its head; taken back by the "
+    "rework that followed): forgetting_variant_forgets_only_fulfilled, forgetting_variant_same_when_quiet, forgetting_variant_loses_witness "
+    "(finding C08-F4: the effect is removed again before the cycle's merge-patch — the code evaluates the fns on its response and delivers, the "
+    "variant had forgotten them; replayed on the real code), "
     "stale_view_conflicts_and_carries (stale event body: refused again, nothing written, carried again), finalizer_redecided "
     "(relative to any decision function: the framework's conflicting finalizer edit is dropped and the decision on the fresh "
     "state is applied once — the code re-decides instead of the property's literal `carried and re-evaluated`); "
@@ -80,13 +85,17 @@ LEVEL_TEXT = (
     "plus random contents, several writes per slot, error codes 400/409) and to the whole operator by replaying every "
     "observed patch_obj call. The eventual state of the framework's own finalizer and `applied exactly once` for handler fns "
     "in closed loops are checked by the oracle; so are: memory.remaining_patch after every real cycle (= the handler-supplied part of what "
-    "the patching left; unchanged by a cycle that raised), no merge-patch ever writes metadata.finalizers or a system field, a finalizer "
+    "the patching left; after a cycle that raised: what opened its patch), that carried transformations which do not open the next cycle's "
+    "patch hold for that cycle's body AND for the freshest state its patching sees (fixed finding C08-F4), that no carried transformation "
+    "leaves the cycle by an exception outside the error throttling (fixed finding C08-F5), that none is dropped on the evidence of a stale "
+    "body while the server's object lacks its effect (open finding C08-F6), no merge-patch ever writes metadata.finalizers or a system field, a finalizer "
     "added by another actor right before any request stays until that actor removes it, a refused transformation of a timer is in its "
     "next accepted delivery, and every write of the operator to the object goes through patching.patch_obj.")
 THEOREMS = [("Kopf.Props.C08", "Kopf.C08." + n) for n in [
     "merge_delivered", "routed_by_subresource", "merge_complete", "status_removal_delivered",
     "fns_atomic", "conflict_keeps_all_fns", "remaining_only_after_refusal",
     "carry_forward", "stale_view_conflicts_and_carries", "accepted_call_empties_memory", "carried_until_accepted",
+    "forgetting_variant_forgets_only_fulfilled", "forgetting_variant_same_when_quiet", "forgetting_variant_loses_witness",
     "finalizer_redecided", "not_duplicated_partial", "reapplied_after_status_conflict_witness",
     "patch_is_own_accumulation", "delivery_sends_own_patch", "daemon_delivery_not_repeated",
     "daemon_exit_drops_remaining_witness", "remaining_stays_with_its_uid",
@@ -99,7 +108,9 @@ RULE = (
     "delete-and-recreate)}(17) x fault {none | one of 4 kinds x (404, 422)}(9) = 32130 cases (5/6 with process_resource_event's carry rule, 1/6 with the daemons'), half of them followed by a "
     "second (quiet) cycle that starts from the remaining patch; random stream: nested field dicts with null leaves, "
     "empty dicts, lists, unicode; 0-3 fns over two finalizer names and status keys, handler-supplied ones as plain functions, functools.partial "
-    "(keyword `finalizer=`) and callable objects; 0-2 slip slots with 1-3 writes each; 0-2 faults over {404, 422, 400, 409}; a case is "
+    "(keyword `finalizer=`) and callable objects; 0-2 slip slots with 1-3 writes each; 0-2 faults over {404, 422, 400, 409}; directed stream `fulfil`: the write that causes the conflict brings all (or a part) of what the "
+    "handler-supplied fns ask for, the next cycle comes with/without dict content and new fns, the effect is sometimes undone again before one of "
+    "its requests or by its own merge-patch; a case is "
     "distinct & non-trivial by its abstract trace (request kinds, codes, uid hits, slip fired, outcome) when at least "
     "one request was sent")
 TRUSTED = [
@@ -113,7 +124,7 @@ ASSUMPTIONS = [
     "merge-patch fields never address metadata.finalizers or system metadata (kopf's own never do: checked by the oracle on every merge request)",
     "labels/annotations values in patches are objects (Kubernetes rejects anything else)",
     "transformation functions: kopf's block_deletion/allow_deletion plus one user-style status setter; "
-    "arbitrary user fns are outside the model",
+    "arbitrary user fns are outside the model (one that raises on some bodies appears in one closed-loop corpus scenario, oracle only: finding C08-F5)",
     "HTTP errors other than 404/422 only end the call with an exception here (modelled as `Fault.error`); retries of "
     "5xx/timeouts inside api.request are C12's subject (the differential run injects the non-retried 400/409 only; 403/429/5xx are retried there)",
     "an operator restart loses the in-memory remaining patch (handler-supplied fns of a conflicting cycle): outside the "
@@ -239,6 +250,16 @@ def _mk_fn(desc: list) -> Any:
     if desc[0] in ("cblock", "callow"):
         # handler-supplied, same effect, a callable object (neither a function nor a partial)
         return _UserFin(desc[1], desc[0] == "cblock")
+    if desc[0] == "ufragile":
+        # handler-supplied, the effect of `ublock`, but it READS a status key first and raises (KeyError) when the status or the key is not there
+        k, f = desc[1], desc[2]
+
+        def user_fragile(body: dict, k: str = k, f: str = f) -> None:
+            body["status"][k]
+            fins = body.setdefault("metadata", {}).setdefault("finalizers", [])
+            if f not in fins:
+                fins.append(f)
+        return user_fragile
     if desc[0] == "uappend":
         # NOT safe to call repeatedly: appends to a status list
         k, v = desc[1], desc[2]
@@ -605,6 +626,11 @@ def o_apply_fns(fns: list, fins: list[str], status: Any) -> tuple[list[str], Any
                 fins.append(d[1])
         elif d[0] in ("allow", "uallow"):
             fins = [x for x in fins if x != d[1]]
+        elif d[0] == "ufragile":
+            if not isinstance(status, dict) or d[1] not in status:
+                raise LookupError(d[1])         # the function cannot be evaluated on this state
+            if d[2] not in fins:
+                fins.append(d[2])
         elif d[0] == "setStatus":
             status = dict(status or {})
             status[d[1]] = copy.deepcopy(d[2])
@@ -666,6 +692,20 @@ def oracle_call(ctx: Ctx, case: Any, i: int, o: dict, sub: bool, where: str = "p
         last = reqs[-1] if reqs else None
         api_error = last is not None and last["code"] not in (200, 404) and not (last["code"] == 422 and last["kind"].startswith("json"))
         if not api_error:
+            # (a handler-supplied function that cannot be evaluated on the freshest body the call has: its own exception, not the patching's)
+            ref = o.get("orig_raw")
+            for r in reqs:
+                if r["code"] == 200 and r["post"] is not None:
+                    ref = r["post"]
+            own_exc = False
+            if any(d[0] == "ufragile" for d in fns) and ref is not None:
+                try:
+                    o_apply_fns(fns, _fins(ref), ref.get("status"))
+                except LookupError:
+                    own_exc = True
+            if own_exc:
+                ctx.count("outcome_detail", "a transformation function raised on the freshest body")
+                return
             fail(f"patching raised {out.get('exc')}", {"site": "patching.patch_obj", "shape": "exception out of patching"})
             return
     for n, r in enumerate(reqs):
@@ -803,12 +843,42 @@ def oracle_call(ctx: Ctx, case: Any, i: int, o: dict, sub: bool, where: str = "p
 SIG_NOT_CARRIED = {"site": "patches.Patch", "shape": "remaining transformations not carried"}
 SIG_MEMORY = {"site": "processing.process_resource_event",
               "shape": "memory.remaining_patch is not the handler-supplied part of what the cycle's patching left"}
+SIG_F5 = {"site": "processing.process_resource_event",
+          "shape": "a carried transformation raised when it was evaluated at the head of the cycle: the exception left the cycle outside the "
+                   "per-object error throttling (the worker and the operator stop)"}
+SIG_F6 = {"site": "patching.patch_obj",
+          "shape": "carried transformations need no operation on the stale body at hand and are dropped without a versioned request, "
+                   "although the server's object lacks their effect"}
+SIG_F4 = {"site": "processing.process_resource_event",
+          "shape": "carried transformations were forgotten as fulfilled on the cycle's body, but a fresher state (the server's at that moment, "
+                   "or the one the same cycle's patching gets back) lacks their effect: neither sent nor carried on"}
 
 
 def handler_supplied(d: list) -> bool:
     """The framework's own finalizer edits are decided anew in every cycle (they are not carried by
     process_resource_event); everything a handler appended is."""
     return d[0] not in ("block", "allow")
+
+
+def o_noop(fns: list, obj: dict | None) -> bool:
+    """One application of the transformations to this state of the object changes nothing: their effect is present."""
+    if obj is None or any(d[0] == "unknown" for d in fns):
+        return False
+    try:
+        wf, ws = o_apply_fns(fns, _fins(obj), obj.get("status"))
+    except LookupError:
+        return False
+    return wf == _fins(obj) and leanio.canon(ws) == leanio.canon(obj.get("status"))
+
+
+def freshest_seen(o: dict) -> dict | None:
+    """The freshest state of the object that one patching call has seen: the object after its last accepted request
+    (None: it sent nothing that was accepted, it knows the body it was computed for only)."""
+    last = None
+    for r in o["reqs"]:
+        if r["code"] == 200 and r["post"] is not None:
+            last = r["post"]
+    return last
 
 
 def oracle_case(ctx: Ctx, case: dict, obs: dict) -> None:
@@ -826,24 +896,51 @@ def oracle_case(ctx: Ctx, case: dict, obs: dict) -> None:
                 ctx.oracle_fail(f"the cycle accumulated {o['fields']} + {o['fns']}; handed to the patching: {pc}",
                                 {"case": case, "cycle": i},
                                 {"site": "processing.process_resource_event", "shape": "the accumulated patch is not what is handed to the patching"})
-    # carry-forward: what remained for an object (and nothing else) opens the next cycle of that object; an exception
-    # leaves it as it was; neither lost nor duplicated
+    # carry-forward (from the property: `carried forward and re-evaluated against a fresh state in the next cycle, so its
+    # effect is neither lost nor duplicated`): what remained for an object (and nothing else) opens the next cycle of that
+    # object -- or one application of it to the object as that cycle sees it changes nothing (its effect is there: the
+    # re-evaluation is done, nothing is left to deliver); never dropped while it would still change the body at hand.
+    # A runner (daemon/timer) hands its patch on as it is. An exception leaves what opened the cycle.
     mems: dict[Any, list | None] = {}
     before: list[list] = []
+    judged: set[int] = set()        # cycles whose carry-forward was reported already
     for i, o in enumerate(cycles):
         if "skipped" in o:
             before.append([])
             continue
         key = o["orig"]["uid"] if event else "runner"
         exp = list(mems.get(key) or [])
-        before.append(exp)
         own = norm_fns(case["cycles"][i]["fns"])
-        if o["fns"] != exp + own:
-            ctx.oracle_fail(f"the cycle's patch holds {o['fns']}: what remained for this object is {exp}, the cycle itself accumulated {own}",
+        fulfilled = bool(exp) and event and o_noop(exp, o["orig_raw"])
+        if o["fns"] == exp + own:
+            opened = exp
+            if fulfilled:
+                ctx.count("carried", "fulfilled on the cycle's body, handed on all the same")
+            elif exp:
+                ctx.count("carried", "in the next cycle's patch")
+        elif fulfilled and o["fns"] == own:
+            opened = []
+            ctx.count("carried", "fulfilled on the cycle's body: forgotten")
+            # ... but then the re-evaluation must hold for the freshest state this very cycle gets to see: a state that
+            # lacks the effect again (somebody removed it meanwhile, or the cycle's own merge-patch did) with the
+            # transformations neither sent nor kept for the next cycle is a lost effect
+            seen = freshest_seen(o)
+            if seen is not None and seen["metadata"]["uid"] == o["orig_raw"]["metadata"]["uid"] and not o_noop(exp, seen):
+                judged.add(i)
+                ctx.oracle_fail(f"{exp} remained for this object and were forgotten at the head of the cycle (no-ops on its body: finalizers "
+                                f"{_fins(o['orig_raw'])}, status {o['orig_raw'].get('status')}); the object after the cycle's last accepted request "
+                                f"has finalizers {_fins(seen)}, status {seen.get('status')}: their effect is not there, they were neither sent nor carried on",
+                                {"case": case, "cycle": i}, SIG_F4)
+        else:
+            opened = exp
+            judged.add(i)
+            ctx.oracle_fail(f"the cycle's patch holds {o['fns']}: what remained for this object is {exp}"
+                            f"{' (not fulfilled on the body of this cycle)' if exp and not fulfilled else ''}, the cycle itself accumulated {own}",
                             {"case": case, "cycle": i}, SIG_NOT_CARRIED)
+        before.append(opened)
         out = o["outcome"]
         if out["kind"] == "raised":
-            new = mems.get(key)
+            new = opened or None
         else:
             rem = out.get("remaining")
             new = None if rem is None else ([d for d in rem if handler_supplied(d)] if event else list(rem))
@@ -859,9 +956,9 @@ def oracle_case(ctx: Ctx, case: dict, obs: dict) -> None:
             continue
         if a["outcome"]["kind"] == "raised":
             continue            # the memory stays as it was: covered by the cycle before
-        carried = before[i]
-        if b["fns"][:len(carried)] != carried:
+        if i in judged:
             continue            # reported above
+        carried = before[i]     # what opened this cycle's patch (the forgotten ones hold on its body: nothing more to apply)
         if not carried:
             continue
         quiet = not any(r["slip"] for r in b["reqs"]) and all(r["code"] == 200 for r in b["reqs"]) and b["outcome"]["kind"] == "ok"
@@ -1095,6 +1192,68 @@ def _rand_write(rng: Any) -> list:
     return ["recreate", rng.choice([{"spec": {"x": 9}}, {"spec": {"x": 0}, "status": {"seen": 5}}, {}])]
 
 
+def _fulfilling_writes(fns: list, fins: list[str], how: str) -> list:
+    """Foreign writes that bring what the handler-supplied transformations ask for (`all`), or a part of it (`part`)."""
+    hs = [norm_desc(d) for d in fns if handler_supplied(d) and d[0] != "uappend"]
+    if how == "part":
+        hs = hs[:max(1, len(hs) // 2)]
+    wf, ws = o_apply_fns(hs, fins, None)
+    ws = ws or {}
+    out: list = []
+    if wf != list(fins):
+        out.append(["setFins", wf])
+    if ws:
+        out.append(["edit", {"status": ws}])
+    return out
+
+
+def gen_fulfil(rng: Any, i: int) -> dict:
+    """The conflict is caused by a write that fulfils the transformations (the other actor did the same thing): what is
+    carried changes nothing in the next cycle's body. That cycle comes with or without dict content, with or without new fns,
+    and sometimes the effect is undone again before one of its requests (or by its own merge-patch)."""
+    ini = _rand_initial(rng)
+    ini["marked"] = False
+    sub = rng.random() < 0.5
+    hs = []
+    for _ in range(rng.choice([1, 1, 2])):
+        r = rng.random()
+        if r < 0.45:
+            hs.append([rng.choice(["ublock", "pblock", "cblock"]), rng.choice(["user.io/u", "new.io/n"])])
+        elif r < 0.6:
+            hs.append([rng.choice(["uallow", "pallow", "callow"]), rng.choice([OTHER, "third.io/z", "user.io/u"])])
+        else:
+            hs.append(["setStatus", rng.choice(["seen", "observed"]), rng.choice([1, "s", {"a": [1]}, True])])
+    fw = [["block", FIN]] if rng.random() < 0.4 else []
+    fns0 = hs + fw if rng.random() < 0.7 else fw + hs
+    how = rng.choice(["all", "all", "all", "part"])
+    ws = _fulfilling_writes(fns0, ini["fins"], how)
+    if not ws:      # nothing to bring: any edit makes the conflict
+        ws = [["edit", {"spec": {"x": 33}}]]
+    has_status_fn = any(d[0] == "setStatus" for d in hs)
+    kind0 = "jsonStatus" if (sub and has_status_fn and any(d[0] != "setStatus" for d in fns0) and rng.random() < 0.3) else \
+        ("jsonBody" if any(d[0] != "setStatus" for d in fns0) or not sub else "jsonStatus")
+    c0: dict[str, Any] = {"fields": _rand_fields(rng, ini) if rng.random() < 0.5 else {}, "fns": fns0,
+                          "slips": {kind0: ws if len(ws) > 1 else ws[0]}, "faults": {}}
+    c1: dict[str, Any] = {"fields": _rand_fields(rng, ini) if rng.random() < 0.6 else {},
+                          "fns": (list(fw) if rng.random() < 0.5 else []) + ([rng.choice(hs)] if rng.random() < 0.15 else []),
+                          "slips": {}, "faults": {}}
+    r = rng.random()
+    if r < 0.3:
+        # the effect is undone again right before one of this cycle's requests
+        undo: list = [["setFins", list(ini["fins"])]] if any(d[0] != "setStatus" for d in hs) else []
+        if has_status_fn:
+            undo.append(["edit", {"status": {d[1]: None for d in hs if d[0] == "setStatus"}}])
+        c1["slips"][rng.choice(KINDS)] = undo if len(undo) > 1 else undo[0]
+    elif r < 0.4:
+        c1["faults"][rng.choice(KINDS)] = rng.choice([404, 422, 409, 400])
+    elif r < 0.5 and has_status_fn:
+        # the cycle's own merge-patch removes the status value the carried function had set
+        c1["fields"] = {"status": {d[1]: None for d in hs if d[0] == "setStatus"}}
+    cycles = [c0, c1, {"fields": {}, "fns": [], "slips": {}, "faults": {}}]
+    return {"sub": sub, "initial": ini, "cycles": cycles, "via": rng.choice(["patch_obj", "apply"]),
+            "carrier": rng.choice(["event", "event", "event", "daemon"]), "tag": f"fulfil:{i}"}
+
+
 def gen_random(rng: Any, i: int) -> dict:
     ini = _rand_initial(rng)
     ncyc = rng.choice([1, 1, 2, 2, 3])
@@ -1208,6 +1367,7 @@ def run(ctx: Ctx) -> None:
         ctx.exhaustive = False
     nrand = ctx.budget(1200, 40000)
     cases += [gen_random(ctx.rng, ctx.seed * 1_000_000 + i) for i in range(nrand)]
+    cases += [gen_fulfil(ctx.rng, ctx.seed * 1_000_000 + i) for i in range(ctx.budget(300, 8000))]
     evaluate(ctx, cases)
     ctx.extra["grid_size"] = len(g)
     ctx.extra["strength"] = STRENGTH
@@ -1225,11 +1385,12 @@ def search(ctx: Ctx, broken: list) -> None:
         if case and "cycles" in case:
             first.append(case)
     evaluate(ctx, first, tie=False)
-    if any(f.kind == "oracle" and f.signature not in (SIG_F2, SIG_STATUS_NULL, SIG_F3) for f in ctx.failures):
+    if any(f.kind == "oracle" and f.signature not in (SIG_F2, SIG_STATUS_NULL, SIG_F3, SIG_F6) for f in ctx.failures):
         return
     cases = grid() + [gen_random(ctx.rng, 9_000_000 + ctx.seed * 1_000_000 + i) for i in range(ctx.budget(12000, 100000))]
+    cases += [gen_fulfil(ctx.rng, 9_000_000 + ctx.seed * 1_000_000 + i) for i in range(ctx.budget(3000, 20000))]
     evaluate(ctx, cases, tie=False)
-    if any(f.kind == "oracle" and f.signature not in (SIG_F2, SIG_STATUS_NULL, SIG_F3) for f in ctx.failures):
+    if any(f.kind == "oracle" and f.signature not in (SIG_F2, SIG_STATUS_NULL, SIG_F3, SIG_F6) for f in ctx.failures):
         return
     from . import sim_c08
     firsts = []
